@@ -71,7 +71,7 @@ def regime_tags(diff, args):
 
 def resolved_by_denser_mesh(name, Nthermo, measure, m4, levels=(8, 12)):
     """A violation measured as m4 (>0) with the default k-point density is attributed to Brillouin-zone integration
-    accuracy iff the same measure shrinks on denser meshes: m(8) <= m4 and m(12) <= m4/2. `measure(diff)` returns the
+    accuracy iff the same measure shrinks on denser meshes: m(8) <= 1.5 m4 (not growing, up to mesh noise) and m(12) <= m4/2. `measure(diff)` returns the
     non-negative violation measure for a calculator. Returns (resolved, [m8, m12])."""
     ms = []
     for N in levels:
@@ -81,4 +81,4 @@ def resolved_by_denser_mesh(name, Nthermo, measure, m4, levels=(8, 12)):
         except Exception:
             ms.append(float('inf'))
         d.clearcache()
-    return (ms[0] <= m4 and ms[-1] <= 0.5 * m4), ms
+    return (ms[0] <= 1.5 * m4 and ms[-1] <= 0.5 * m4), ms
